@@ -1,6 +1,7 @@
 package vc
 
 import (
+	"sort"
 	"fmt"
 	"go/types"
 	"strings"
@@ -117,6 +118,10 @@ func (e *Engine) enterLoop(f *frame, lc *loopCtx, st *State) {
 	for _, cl := range lc.spec.Invs {
 		for _, of := range cl.OldFn {
 			if _, ok := f.olds[of]; !ok {
+				if pv, ok := e.preOlds[of]; ok && f.top {
+					f.olds[of] = pv
+					continue
+				}
 				v, _ := e.evalSpec(f.fn.Pkg, of, f.args[:len(f.fn.Params)], f.entrySt)
 				f.olds[of] = v
 			}
@@ -313,7 +318,7 @@ func (e *Engine) havocLoopMemory(f *frame, lc *loopCtx) {
 		f.st.Cells[c] = e.freshVal("cell_"+c.Name, c.T)
 	}
 	if wholeHeaps["*"] {
-		for k := range e.heapSorts {
+		for _, k := range sortedHeapKeys(e.heapSorts) {
 			f.st.Heaps[k] = e.havocOld(f.st, k)
 		}
 		return
@@ -322,7 +327,7 @@ func (e *Engine) havocLoopMemory(f *frame, lc *loopCtx) {
 		if strings.HasPrefix(k, "?") {
 			continue
 		}
-		for hk := range e.heapSorts {
+		for _, hk := range sortedHeapKeys(e.heapSorts) {
 			if strings.HasPrefix(hk, k) {
 				f.st.Heaps[hk] = e.havocOld(f.st, hk)
 			}
@@ -335,7 +340,29 @@ func (e *Engine) havocLoopMemory(f *frame, lc *loopCtx) {
 // except objects not yet allocated stay irrelevant. (Objects allocated before the loop may change.)
 func (e *Engine) havocOld(st *State, key string) *smt.Term {
 	leaf := e.heapSorts[key]
-	return e.X.Fresh("HV|"+key, e.heapSortOf(key, leaf))
+	h := e.X.Fresh("HV|"+key, e.heapSortOf(key, leaf))
+	// ghost snapshots are written by nothing: they keep their contents
+	for _, sn := range e.snaps {
+		if sn.key == key {
+			h = e.X.Store(h, sn.ref, sn.val)
+		}
+	}
+	return h
+}
+
+type snapRec struct {
+	key string
+	ref *smt.Term
+	val *smt.Term
+}
+
+func sortedHeapKeys(m map[string]*smt.Sort) []string {
+	var ks []string
+	for k := range m {
+		ks = append(ks, k)
+	}
+	sort.Strings(ks)
+	return ks
 }
 
 func (e *Engine) keysOfStore(addr ssa.Value, t types.Type) []string {
